@@ -259,13 +259,13 @@ Proof.
   - intros H. exists c. split; [exact H|apply str_eqb_refl].
 Qed.
 
-Lemma fixed_keep_mcand used tgt ref c e : mem_str c used = true ->
+Lemma fixed_keep_mcand used tgt ref c e : mem_str c used = true -> c <> tgt ->
   fixed_keep used tgt ref e && str_eqb c (pe_base e)
   = str_eqb (pe_base e) c && str_eqb (pe_eq e) tgt && before_ref ref e.
 Proof.
-  intros Hu. unfold fixed_keep. rewrite (str_eqb_sym c (pe_base e)).
+  intros Hu Hne. apply str_eqb_neq in Hne. unfold fixed_keep. rewrite (str_eqb_sym c (pe_base e)).
   destruct (str_eqb (pe_base e) c) eqn:E.
-  - apply str_eqb_eq in E. rewrite E, Hu. cbn [andb]. rewrite andb_true_r. reflexivity.
+  - apply str_eqb_eq in E. rewrite E, Hu, Hne. cbn [andb negb]. rewrite !andb_true_r. reflexivity.
   - rewrite andb_false_r. reflexivity.
 Qed.
 
@@ -298,11 +298,24 @@ Proof.
   - apply sort_by_sorted; [exact ts_leb_total|exact ts_leb_trans].
 Qed.
 
-Lemma comm_cache_in tgt c db e :
-  In e (comm_cache tgt c db) <-> In e db /\ pe_base e = c /\ pe_eq e = tgt.
+Lemma comm_cache_in_fwd tgt c db e :
+  In e (comm_cache tgt c db) -> In e db /\ pe_base e = c /\ pe_eq e = tgt.
 Proof.
-  unfold comm_cache. rewrite sort_by_in, filter_In, andb_true_iff, !str_eqb_eq.
-  split; intros [H1 [H2 H3]]; repeat split; congruence.
+  unfold comm_cache. rewrite sort_by_in, filter_In, !andb_true_iff, !str_eqb_eq.
+  intros [H1 [[H2 H3] _]]. repeat split; congruence.
+Qed.
+
+Lemma comm_cache_ne tgt c db e : In e (comm_cache tgt c db) -> c <> tgt.
+Proof.
+  unfold comm_cache. rewrite sort_by_in, filter_In, !andb_true_iff, !str_eqb_eq, negb_true_iff, str_eqb_neq.
+  intros [_ [[H2 _] H4]]. congruence.
+Qed.
+
+Lemma comm_cache_in_bwd tgt c db e :
+  c <> tgt -> In e db -> pe_base e = c -> pe_eq e = tgt -> In e (comm_cache tgt c db).
+Proof.
+  unfold comm_cache. rewrite sort_by_in, filter_In, !andb_true_iff, !str_eqb_eq, negb_true_iff, str_eqb_neq.
+  intros H0 H1 H2 H3. repeat split; congruence.
 Qed.
 
 (* the search, on a list sorted by instant whose entries all have base commodity c *)
@@ -383,7 +396,7 @@ Proof.
     [reflexivity|].
   symmetry. apply last_sat_none. intros e He.
   destruct (mem_str (p_comm p) used) eqn:Hu.
-  - rewrite fixed_keep_mcand by exact Hu. destruct H as [H|H]; [discriminate|]. apply H. exact He.
+  - rewrite fixed_keep_mcand by assumption. destruct H as [H|H]; [discriminate|]. apply H. exact He.
   - unfold fixed_keep. destruct (str_eqb (p_comm p) (pe_base e)) eqn:E; [|apply andb_false_r].
     apply str_eqb_eq in E. rewrite <- E, Hu. reflexivity.
 Qed.
@@ -400,9 +413,9 @@ Proof.
   destruct (comm_cache tgt (p_comm p) db) as [|x cc] eqn:Ec; [reflexivity|].
   destruct (search_le_spec t (p_comm p) (x :: cc) None) as [[H1 _]|[e [_ [H2 [H3 _]]]]].
   - rewrite <- Ec. apply comm_cache_sorted.
-  - intros e He. rewrite <- Ec in He. apply comm_cache_in in He. tauto.
+  - intros e He. rewrite <- Ec in He. apply comm_cache_in_fwd in He. tauto.
   - rewrite H1. reflexivity.
-  - exfalso. rewrite <- Ec in H2. apply comm_cache_in in H2. destruct H2 as [Hd [Hb He]].
+  - exfalso. rewrite <- Ec in H2. apply comm_cache_in_fwd in H2. destruct H2 as [Hd [Hb He]].
     specialize (H e Hd). rewrite Hb, He, !str_eqb_refl in H. cbn [andb] in H.
     rewrite Z.leb_gt in H. lia.
 Qed.
@@ -447,7 +460,7 @@ Lemma fixed_rate used tgt ref db t p e0 :
 Proof.
   intros Hs Hc Htg Hu Hin0 Hc0. rewrite convert_post_nonempty by assumption. rewrite fixed_cache_get.
   rewrite (last_sat_ext _ (fun e => str_eqb (pe_base e) (p_comm p) && str_eqb (pe_eq e) tgt && before_ref ref e))
-    by (intros e _; apply fixed_keep_mcand; exact Hu).
+    by (intros e _; apply fixed_keep_mcand; assumption).
   destruct (last_sat (fun e => str_eqb (pe_base e) (p_comm p) && str_eqb (pe_eq e) tgt && before_ref ref e) db) as [e|] eqn:El.
   - exists e. destruct (last_sat_some _ _ _ El) as [H1 H2]. split; [exact H1|]. split; [exact H2|].
     split; [|reflexivity]. intros e' He' Pe'.
@@ -466,18 +479,18 @@ Lemma timed_rate used tgt db t p e0 :
 Proof.
   intros Hc Htg Hu Hin0 Hc0. rewrite convert_post_nonempty by assumption. rewrite timed_cache_get, Hu.
   rewrite !andb_true_iff, !str_eqb_eq, Z.leb_le in Hc0. destruct Hc0 as [[Hb0 He0] Ht0].
-  assert (In e0 (comm_cache tgt (p_comm p) db)) as Hcc0 by (apply comm_cache_in; tauto).
+  assert (In e0 (comm_cache tgt (p_comm p) db)) as Hcc0 by (apply comm_cache_in_bwd; tauto).
   destruct (comm_cache tgt (p_comm p) db) as [|x cc] eqn:Ec; [destruct Hcc0|].
   destruct (search_le_spec t (p_comm p) (x :: cc) None) as [[_ H2]|[e [H1 [H2 [H3 H4]]]]].
   - rewrite <- Ec. apply comm_cache_sorted.
-  - intros e He. rewrite <- Ec in He. apply comm_cache_in in He. tauto.
+  - intros e He. rewrite <- Ec in He. apply comm_cache_in_fwd in He. tauto.
   - specialize (H2 e0 Hcc0). lia.
-  - exists e. rewrite <- Ec in H2. apply comm_cache_in in H2. destruct H2 as [Hd [Hb He]].
+  - exists e. rewrite <- Ec in H2. apply comm_cache_in_fwd in H2. destruct H2 as [Hd [Hb He]].
     split; [exact Hd|]. split.
     { rewrite Hb, He, !str_eqb_refl. cbn [andb]. apply Z.leb_le. exact H3. }
     split; [|rewrite H1; reflexivity].
     intros e' He' Pe'. rewrite !andb_true_iff, !str_eqb_eq, Z.leb_le in Pe'. destruct Pe' as [[Hb' Heq'] Ht'].
-    apply H4; [|exact Ht']. rewrite <- Ec. apply comm_cache_in. tauto.
+    apply H4; [|exact Ht']. rewrite <- Ec. apply comm_cache_in_bwd; tauto.
 Qed.
 
 Lemma make_ctx_rate lk txns tgt db t p e0 :
@@ -774,7 +787,8 @@ Qed.
 Definition FixedMeta (tgt : list N) (f : list pentry) (txns : list txn) (ref : option Z) (recs : list prec) : Prop :=
   StronglySorted str_lt (map pr_source recs) /\
   (forall c, In c (map pr_source recs) <->
-             In c (posting_comms txns) /\ exists e, In e f /\ pe_base e = c /\ pe_eq e = tgt /\ before_ref ref e = true) /\
+             In c (posting_comms txns) /\ c <> tgt /\
+             exists e, In e f /\ pe_base e = c /\ pe_eq e = tgt /\ before_ref ref e = true) /\
   (forall r, In r recs ->
      pr_target r = tgt /\
      exists e, In e f /\ pe_base e = pr_source r /\ pe_eq e = tgt /\ before_ref ref e = true /\
@@ -789,19 +803,20 @@ Proof.
   intros Hd. set (used := used_commodities txns). set (db := load_db f).
   set (m := fixed_cache used tgt ref db).
   assert (forall c ts r, assoc_get c m = Some (ts, r) ->
-            mem_str c used = true /\
+            mem_str c used = true /\ c <> tgt /\
             exists e, In e db /\ pe_base e = c /\ pe_eq e = tgt /\ before_ref ref e = true /\
               (forall e', In e' db -> pe_base e' = c -> pe_eq e' = tgt -> before_ref ref e' = true -> pe_ts e' <= pe_ts e) /\
               ts = pe_ts e /\ r = pe_rate e) as Hget.
   { intros c ts r H. unfold m in H. rewrite fixed_cache_get in H.
     destruct (last_sat (fun e => fixed_keep used tgt ref e && str_eqb c (pe_base e)) db) as [e|] eqn:El; [|discriminate].
     inversion H; subst ts r. destruct (last_sat_some _ _ _ El) as [Hin Pe].
-    assert (mem_str c used = true) as Hu.
-    { unfold fixed_keep in Pe. rewrite !andb_true_iff in Pe. destruct Pe as [[[Hm _] _] Ec].
-      apply str_eqb_eq in Ec. subst c. exact Hm. }
-    split; [exact Hu|]. exists e. split; [exact Hin|].
+    assert (mem_str c used = true /\ c <> tgt) as [Hu Hne].
+    { unfold fixed_keep in Pe. rewrite !andb_true_iff, negb_true_iff, str_eqb_neq in Pe.
+      destruct Pe as [[[[Hm _] Hn] _] Ec].
+      apply str_eqb_eq in Ec. subst c. split; assumption. }
+    split; [exact Hu|]. split; [exact Hne|]. exists e. split; [exact Hin|].
     rewrite (last_sat_ext _ (fun e => str_eqb (pe_base e) c && str_eqb (pe_eq e) tgt && before_ref ref e)) in El
-      by (intros x _; apply fixed_keep_mcand; exact Hu).
+      by (intros x _; apply fixed_keep_mcand; assumption).
     destruct (last_sat_some _ _ _ El) as [_ Pe'].
     rewrite !andb_true_iff, !str_eqb_eq in Pe'. destruct Pe' as [[Hb He] Ht].
     repeat split; try assumption.
@@ -812,18 +827,18 @@ Proof.
   assert (forall e, In e db <-> In e f) as Hdb by (intros e; apply load_db_in_iff; exact Hd).
   unfold FixedMeta. rewrite map_map. cbn [pr_source]. split; [apply by_key_sorted; exact Hnd|]. split.
   - intros c. rewrite by_key_keys, assoc_get_keys. split.
-    + intros [[ts r] H]. destruct (Hget c ts r H) as [Hu [e [Hin [Hb [He [Ht _]]]]]].
-      split; [apply used_commodities_in; exact Hu|]. exists e. rewrite <- Hdb. tauto.
-    + intros [Hu [e [Hin [Hb [He Ht]]]]]. apply used_commodities_in in Hu. fold used in Hu.
+    + intros [[ts r] H]. destruct (Hget c ts r H) as [Hu [Hne [e [Hin [Hb [He [Ht _]]]]]]].
+      split; [apply used_commodities_in; exact Hu|]. split; [exact Hne|]. exists e. rewrite <- Hdb. tauto.
+    + intros [Hu [Hne [e [Hin [Hb [He Ht]]]]]]. apply used_commodities_in in Hu. fold used in Hu.
       unfold m. rewrite fixed_cache_get.
       destruct (last_sat (fun e => fixed_keep used tgt ref e && str_eqb c (pe_base e)) db) as [e'|] eqn:El;
         [eexists; reflexivity|].
       exfalso. apply Hdb in Hin. pose proof (proj1 (last_sat_none _ _) El e Hin) as Hf. cbv beta in Hf.
-      rewrite fixed_keep_mcand in Hf by exact Hu.
+      rewrite fixed_keep_mcand in Hf by assumption.
       rewrite Hb, He, !str_eqb_refl in Hf. cbn [andb] in Hf. congruence.
   - intros r Hr. apply in_map_iff in Hr. destruct Hr as [[k [ts rt]] [Er Hkv]]. subst r. cbn [pr_target pr_source pr_used fst snd].
     split; [reflexivity|]. apply (proj1 (by_key_in m _)) in Hkv. apply (proj1 (assoc_get_in m k (ts, rt) Hnd)) in Hkv.
-    destruct (Hget k ts rt Hkv) as [_ [e [Hin [Hb [He [Ht [Hmax [Ets Er]]]]]]]].
+    destruct (Hget k ts rt Hkv) as [_ [_ [e [Hin [Hb [He [Ht [Hmax [Ets Er]]]]]]]]].
     exists e. rewrite <- Hdb. repeat split; try assumption.
     + intros e' Hin'. apply Hmax. apply Hdb. exact Hin'.
     + congruence.
@@ -835,7 +850,7 @@ Proof.
   intros Hd. unfold make_ctx, metadata. destruct lk; cbn [c_target c_cache default_ctx].
   - (* none *)
     split; [constructor|]. split; [|intros r []].
-    intros c. cbn [map]. split; [intros []|]. intros [_ [e [_ [_ [_ F]]]]]. exact F.
+    intros c. cbn [map]. split; [intros []|]. intros [_ [_ [e [_ [_ [_ F]]]]]]. exact F.
   - (* txn-time *)
     set (m := timed_cache (used_commodities txns) tgt (load_db f)).
     assert (NoDup (map fst m)) as Hnd.
@@ -845,16 +860,17 @@ Proof.
       split; intros [Hu H]; (split; [exact Hu|]).
       * destruct (comm_cache tgt c (load_db f)) as [|e cc] eqn:Ec; [discriminate|].
         assert (In e (comm_cache tgt c (load_db f))) as Hin by (rewrite Ec; left; reflexivity).
-        apply comm_cache_in in Hin. destruct Hin as [Hin [Hb He]]. apply load_db_in in Hin.
+        split; [apply (comm_cache_ne tgt c (load_db f) e Hin)|].
+        apply comm_cache_in_fwd in Hin. destruct Hin as [Hin [Hb He]]. apply load_db_in in Hin.
         exists e. rewrite Hb, He, !str_eqb_refl. tauto.
-      * destruct H as [e [Hin [Hb [He _]]]]. apply str_eqb_eq in Hb, He.
+      * destruct H as [Hne [e [Hin [Hb [He _]]]]]. apply str_eqb_eq in Hb, He.
         assert (In e (comm_cache tgt c (load_db f))) as Hcc.
-        { apply comm_cache_in. split; [apply (proj2 (load_db_in_iff f e Hd)); exact Hin|tauto]. }
+        { apply comm_cache_in_bwd; try assumption. apply (proj2 (load_db_in_iff f e Hd)); exact Hin. }
         destruct (comm_cache tgt c (load_db f)); [destruct Hcc|reflexivity].
     + intros r Hin. apply in_map_iff in Hin. destruct Hin as [kv [E _]]. subst r. split; reflexivity.
   - (* last-price *)
     destruct (fixed_meta tgt f txns None Hd) as [H1 [H2 H3]]. split; [exact H1|]. split.
-    + intros c. rewrite H2. split; intros [Hu [e [Hin [Hb [He Ht]]]]]; (split; [exact Hu|]); exists e.
+    + intros c. rewrite H2. split; intros [Hu [Hne [e [Hin [Hb [He Ht]]]]]]; (split; [exact Hu|split; [exact Hne|]]); exists e.
       * rewrite Hb, He, !str_eqb_refl. tauto.
       * apply str_eqb_eq in Hb, He. cbn [before_ref]. tauto.
     + intros r Hin. destruct (H3 r Hin) as [Et [e [Hin' [Hb [He [Ht [Hmax Hu]]]]]]]. split; [exact Et|].
@@ -865,7 +881,7 @@ Proof.
   - (* given-time *)
     destruct (fixed_meta tgt f txns (Some t) Hd) as [H1 [H2 H3]]. split; [exact H1|]. split.
     + intros c. rewrite H2.
-      split; intros [Hu [e [Hin [Hb [He Ht]]]]]; (split; [exact Hu|]); exists e.
+      split; intros [Hu [Hne [e [Hin [Hb [He Ht]]]]]]; (split; [exact Hu|split; [exact Hne|]]); exists e.
       * rewrite Hb, He, !str_eqb_refl. cbn [before_ref] in Ht. apply Z.ltb_lt in Ht. tauto.
       * apply str_eqb_eq in Hb, He. cbn [before_ref]. apply Z.ltb_lt in Ht. tauto.
     + intros r Hin. destruct (H3 r Hin) as [Et [e [Hin' [Hb [He [Ht [Hmax Hu]]]]]]]. split; [exact Et|].
@@ -978,9 +994,10 @@ Proof.
   split; [apply strictly_ascending_sorted; exact H1|]. split.
   - intros c. split.
     + intros Hc. apply in_map_iff in Hc. destruct Hc as [r [E Hr]]. subst c.
-      specialize (H2 r Hr). rewrite andb_true_iff in H2. destruct H2 as [Ha Hb].
-      split; [apply mem_str_in; exact Ha|apply has_rate_b_iff; exact Hb].
-    + intros [Hc Hh]. specialize (H3 c Hc). apply has_rate_b_iff in Hh. rewrite Hh in H3. cbn [negb orb] in H3.
+      specialize (H2 r Hr). rewrite !andb_true_iff, negb_true_iff, str_eqb_neq in H2. destruct H2 as [[Ha Hn] Hb].
+      split; [apply mem_str_in; exact Ha|]. split; [exact Hn|apply has_rate_b_iff; exact Hb].
+    + intros [Hc [Hn Hh]]. specialize (H3 c Hc). apply has_rate_b_iff in Hh. apply str_eqb_neq in Hn.
+      rewrite Hh, Hn in H3. cbn [negb orb] in H3.
       apply mem_str_in. exact H3.
   - intros r Hr. specialize (H4 r Hr). unfold rec_ok_b in H4. rewrite andb_true_iff, str_eqb_eq in H4.
     destruct H4 as [Ht Hu]. split; [exact Ht|].
@@ -1074,13 +1091,16 @@ Lemma price_example :
   = [ [ (EUR, 1, 0%N, None); (EUR, -1, 0%N, None) ]; [ (EUR, 3, 0%N, Some (3, 0%N)); (EUR, -3, 0%N, None) ] ] /\
   (* F19 regression: last-price applies the line stamped Timestamp::MAX *)
   ex_show (price_run LkLastPrice (Some EUR) tsmax_file tsmax_txns)
-  = [ [ (EUR, 7, 0%N, None); (EUR, -7, 0%N, None) ] ].
+  = [ [ (EUR, 7, 0%N, None); (EUR, -7, 0%N, None) ] ] /\
+  (* F21 regression: the self pair EUR -> EUR is not listed in the metadata *)
+  map (fun r => (pr_source r, pr_used r)) (metadata (make_ctx LkLastPrice f12_txns (Some EUR) (load_db f12_file)))
+  = [ (ACME, Some (100, mkDec 3 0)) ].
 Proof.
   split; [apply ex_file_ok|]. split; [apply ex_file_ok|].
   split; [vm_compute; reflexivity|]. split; [vm_compute; reflexivity|]. split; [vm_compute; reflexivity|].
   split; [vm_compute; reflexivity|].
   split; [apply rate_at_some; vm_compute; reflexivity|].
-  split; vm_compute; reflexivity.
+  split; [vm_compute; reflexivity|]. split; vm_compute; reflexivity.
 Qed.
 
 (* ------------------------------------------------------------------ *)
@@ -1143,14 +1163,16 @@ Qed.
 Lemma RateAt_fixed_time lk f tgt c t t' e : is_fixed lk -> RateAt lk f tgt c t e -> RateAt lk f tgt c t' e.
 Proof. destruct lk; cbn [is_fixed]; intros F H; try destruct F; exact H. Qed.
 
-(* a record whose source is not the report commodity is applied to every posting in its commodity *)
+(* every listed record is applied to every posting of the set in its commodity *)
 Lemma metadata_applied lk txns tgt f r :
   distinct_keys f -> is_fixed lk ->
-  In r (metadata (make_ctx lk txns (Some tgt) (load_db f))) -> pr_source r <> tgt ->
+  In r (metadata (make_ctx lk txns (Some tgt) (load_db f))) ->
   RecordApplied lk txns tgt f r.
 Proof.
-  intros Hd Hfix Hr Hne tx p Htx Hp Ec Hc.
-  destruct (metadata_spec lk txns tgt f Hd) as [_ [_ H3]]. destruct (H3 r Hr) as [_ Hx].
+  intros Hd Hfix Hr tx p Htx Hp Ec Hc.
+  destruct (metadata_spec lk txns tgt f Hd) as [_ [H2 H3]]. destruct (H3 r Hr) as [_ Hx].
+  assert (pr_source r <> tgt) as Hne.
+  { apply (H2 (pr_source r)). apply in_map. exact Hr. }
   assert (exists e rate, RateAt lk f tgt (pr_source r) 0 e /\ pr_used r = Some (pe_ts e, rate) /\ dcmp rate (pe_rate e) = Eq)
     as [e [rate [HR [Hu Hq]]]] by (destruct lk; cbn [is_fixed] in Hfix; try destruct Hfix; exact Hx).
   exists e, rate. split; [exact Hu|]. split; [exact Hq|].
@@ -1160,41 +1182,10 @@ Proof.
   - rewrite Ec. apply (RateAt_fixed_time lk f tgt _ 0); assumption.
 Qed.
 
-(* ... in particular every record, when the file has no self pair of the report commodity *)
-Lemma metadata_all_applied lk txns tgt f r :
-  distinct_keys f -> is_fixed lk -> no_self_pair tgt f ->
-  In r (metadata (make_ctx lk txns (Some tgt) (load_db f))) ->
-  RecordApplied lk txns tgt f r.
+(* regression of F21: a self pair of the report commodity is not listed *)
+Lemma metadata_no_self_record lk txns tgt f r :
+  distinct_keys f -> In r (metadata (make_ctx lk txns (Some tgt) (load_db f))) -> pr_source r <> tgt.
 Proof.
-  intros Hd Hfix Hns Hr. apply metadata_applied; try assumption.
-  intros E. destruct (metadata_spec lk txns tgt f Hd) as [_ [_ H3]]. destruct (H3 r Hr) as [_ Hx].
-  assert (exists e rate, RateAt lk f tgt (pr_source r) 0 e /\ pr_used r = Some (pe_ts e, rate) /\ dcmp rate (pe_rate e) = Eq)
-    as [e [rate [[Hin [C _]] _]]] by (destruct lk; cbn [is_fixed] in Hfix; try destruct Hfix; exact Hx).
-  specialize (Hns e Hin). unfold candidate in C. unfold is_self_pair in Hns. rewrite E in C.
-  rewrite !andb_true_iff in C. destruct C as [[C1 C2] _]. rewrite C1, C2 in Hns. discriminate.
-Qed.
-
-(* with a self pair the record EUR -> EUR is listed although it is never applied *)
-Lemma metadata_applied_refuted :
-  exists lk txns tgt f r,
-    distinct_keys f /\ is_fixed lk /\
-    In r (metadata (make_ctx lk txns (Some tgt) (load_db f))) /\ ~ RecordApplied lk txns tgt f r.
-Proof.
-  exists LkLastPrice, f12_txns, EUR, f12_file, (mkPrec EUR EUR (Some (100, mkDec 2 0))).
-  split.
-  { unfold distinct_keys. cbn. constructor; [intros [H|[]]; discriminate H|]. constructor; [intros []|constructor]. }
-  split; [exact I|]. split; [vm_compute; right; left; reflexivity|].
-  intros H.
-  destruct (H (mkTxn (ex_hdr 200) [ex_post 97 EUR 1 0; ex_post 98 EUR (-1) 0]) (ex_post 97 EUR 1 0))
-    as [e [rate [Hu [Hq Hc]]]].
-  - left. reflexivity.
-  - left. reflexivity.
-  - reflexivity.
-  - discriminate.
-  - rewrite (convert_target_unchanged LkLastPrice f12_txns EUR f12_file) in Hc by reflexivity.
-    cbn [pr_used] in Hu. injection Hu as _ Hrate. subst rate.
-    unfold unconverted, converted, ex_post in Hc. cbn [p_acc p_comm p_amount] in Hc. injection Hc as Ha.
-    destruct (pe_rate e) as [m sc]. unfold dmul, is_zero in Ha. cbn [dm ds orb Z.eqb] in Ha.
-    destruct (m =? 0); [discriminate Ha|]. injection Ha as H1 H2.
-    assert (m = 1) by (destruct m; congruence). subst m sc. vm_compute in Hq. discriminate Hq.
+  intros Hd Hr. destruct (metadata_spec lk txns tgt f Hd) as [_ [H2 _]].
+  apply (H2 (pr_source r)). apply in_map. exact Hr.
 Qed.
